@@ -5,6 +5,8 @@ import (
 	"encoding/json"
 	"fmt"
 	"io"
+	"mime"
+	"mime/multipart"
 	"net/http"
 	"strings"
 	"sync"
@@ -183,6 +185,154 @@ func TestOverlap(t *testing.T) {
 		vlib.S().NonTrivial("overlapping-evaluations", c.String())
 		if key, msg := runOverlap(c); key != "" {
 			vlib.WriteReplay("C17/overlap", c)
+			if vlib.Fail(t, key, "%v: %s", c, msg) {
+				t.Skip("known")
+			}
+		}
+	})
+}
+
+// Part "api-function-reuse": an API function (the value APIMake...Body returns) is called several times with
+// different bodies; the MonadIOs are evaluated in a drawn order (possibly each twice). Every request carries
+// the serializer's output for the body of ITS call - multipart: the fields of its own form, with a boundary
+// that its own Content-Type declares; a call with a nil form sends no body and no multipart Content-Type of
+// an earlier call; JSON: its own value.
+
+type reuseCase struct {
+	Multipart bool  `json:"multipart"`
+	Ctor      int   `json:"ctor"`   // 0 Post, 1 Put, 2 Patch
+	Bodies    []int `json:"bodies"` // per call: -1 = nil form / nil body pointer, else a payload id
+	Order     []int `json:"order"`  // evaluation order (indices into Bodies, repeats allowed)
+}
+
+func (c reuseCase) String() string { b, _ := json.Marshal(c); return string(b) }
+
+type reuseRT struct {
+	mu   sync.Mutex
+	reqs []captured
+}
+
+func (r *reuseRT) RoundTrip(req *http.Request) (*http.Response, error) {
+	c := captured{Method: req.Method, URL: req.URL.String(), Header: req.Header.Clone()}
+	if req.Body != nil {
+		c.Body, _ = io.ReadAll(req.Body)
+		req.Body.Close()
+	}
+	r.mu.Lock()
+	r.reqs = append(r.reqs, c)
+	r.mu.Unlock()
+	return &http.Response{Status: "200 OK", StatusCode: 200, Proto: "HTTP/1.1", ProtoMajor: 1, ProtoMinor: 1,
+		Header: http.Header{"Content-Type": {"application/json"}}, Body: io.NopCloser(strings.NewReader("{}")), ContentLength: -1, Request: req}, nil
+}
+
+func runReuse(c reuseCase) (key, msg string) {
+	rt := &reuseRT{}
+	api := network.NewSimpleAPIWithSimpleHTTP("http://reuse.test", network.NewSimpleHTTPWithClientAndInterceptors(&http.Client{Transport: rt}))
+	type R = map[string]interface{}
+	evals := make([]func() *network.APIResponse[R], len(c.Bodies))
+	p, st := vlib.Try(func() {
+		if c.Multipart {
+			var fn network.APIMultipart[R]
+			switch c.Ctor {
+			case 0:
+				fn = network.APIMakePostMultipartBody[R](api, "up/{n}")
+			case 1:
+				fn = network.APIMakePutMultipartBody[R](api, "up/{n}")
+			default:
+				fn = network.APIMakePatchMultipartBody[R](api, "up/{n}")
+			}
+			for i, b := range c.Bodies {
+				var form *network.MultipartForm
+				if b >= 0 {
+					form = &network.MultipartForm{Value: map[string][]string{"id": {fmt.Sprint(b)}, "pad": {strings.Repeat("x", b%50)}}}
+				}
+				evals[i] = fn(network.PathParam{"n": i}, form, new(R)).Eval
+			}
+			return
+		}
+		var fn network.APIHasBody[*overlapBody, R]
+		switch c.Ctor {
+		case 0:
+			fn = network.APIMakePostJSONBody[*overlapBody, R](api, "up/{n}")
+		case 1:
+			fn = network.APIMakePutJSONBody[*overlapBody, R](api, "up/{n}")
+		default:
+			fn = network.APIMakePatchJSONBody[*overlapBody, R](api, "up/{n}")
+		}
+		for i, b := range c.Bodies {
+			var body *overlapBody
+			if b >= 0 {
+				body = &overlapBody{ID: b, Pad: strings.Repeat("y", b%50)}
+			}
+			evals[i] = fn(network.PathParam{"n": i}, body, new(R)).Eval
+		}
+	})
+	if p != nil {
+		return "C17/reuse/panic", fmt.Sprintf("%v\n%s", p, st)
+	}
+	for step, i := range c.Order {
+		before := len(rt.reqs)
+		var resp *network.APIResponse[R]
+		if p, st := vlib.Try(func() { resp = evals[i]() }); p != nil {
+			return "C17/reuse/panic", fmt.Sprintf("evaluation of call %d panicked: %v\n%s", i, p, st)
+		}
+		if resp == nil || resp.Err != nil {
+			return "C17/reuse/err", fmt.Sprintf("step %d (call %d): Err = %v", step, i, resp)
+		}
+		if len(rt.reqs) != before+1 {
+			return "C17/request-count", fmt.Sprintf("step %d (call %d): %d requests sent, want 1", step, i, len(rt.reqs)-before)
+		}
+		got := rt.reqs[before]
+		if want := fmt.Sprintf("http://reuse.test/up/%d", i); got.URL != want {
+			return "C17/url", fmt.Sprintf("step %d (call %d): URL %q, want %q", step, i, got.URL, want)
+		}
+		b := c.Bodies[i]
+		ct := got.Header.Get("Content-Type")
+		if b < 0 {
+			if len(got.Body) != 0 {
+				return "C17/body:unexpected", fmt.Sprintf("step %d: call %d was made with a nil body/form, its request carries the body %.60q", step, i, got.Body)
+			}
+			if c.Multipart && strings.HasPrefix(ct, "multipart/") {
+				return "C17/header:content-type", fmt.Sprintf("step %d: call %d was made with a nil form, its request declares %q (no form was serialized for this call)", step, i, ct)
+			}
+			continue
+		}
+		if !c.Multipart {
+			want, _ := json.Marshal(&overlapBody{ID: b, Pad: strings.Repeat("y", b%50)})
+			if !bytes.Equal(got.Body, want) {
+				return "C17/body:json", fmt.Sprintf("step %d: call %d sent %.80q, the serializer's output for its body is %.80q", step, i, got.Body, want)
+			}
+			continue
+		}
+		mediaType, params, err := mime.ParseMediaType(ct)
+		if err != nil || mediaType != "multipart/form-data" || params["boundary"] == "" {
+			return "C17/header:content-type", fmt.Sprintf("step %d: call %d declares Content-Type %q, want multipart/form-data with a boundary", step, i, ct)
+		}
+		form, err := multipart.NewReader(bytes.NewReader(got.Body), params["boundary"]).ReadForm(1 << 20)
+		if err != nil {
+			return "C17/body:multipart", fmt.Sprintf("step %d: the body of call %d (%d bytes) does not parse with the boundary its own Content-Type declares: %v", step, i, len(got.Body), err)
+		}
+		if fmt.Sprint(form.Value["id"]) != fmt.Sprint([]string{fmt.Sprint(b)}) || fmt.Sprint(form.Value["pad"]) != fmt.Sprint([]string{strings.Repeat("x", b%50)}) {
+			return "C17/body:multipart", fmt.Sprintf("step %d: call %d was made with the form id=%d; its request carries the fields %v", step, i, b, form.Value)
+		}
+	}
+	return "", ""
+}
+
+func TestAPIFunctionReuse(t *testing.T) {
+	if vlib.Replaying() {
+		t.Skip()
+	}
+	vlib.Check(t, "api-function-reuse", 400, 6000, func(t *rapid.T) {
+		c := reuseCase{Multipart: rapid.Bool().Draw(t, "multipart"), Ctor: rapid.IntRange(0, 2).Draw(t, "ctor")}
+		n := rapid.IntRange(2, 4).Draw(t, "calls")
+		for i := 0; i < n; i++ {
+			c.Bodies = append(c.Bodies, rapid.SampledFrom([]int{-1, 3, 17, 120, 999}).Draw(t, "body"))
+		}
+		c.Order = rapid.SliceOfN(rapid.IntRange(0, n-1), n, 2*n).Draw(t, "order")
+		vlib.S().Eval("api-function-reuse")
+		vlib.S().NonTrivial("api-function-reuse", c.String())
+		if key, msg := runReuse(c); key != "" {
 			if vlib.Fail(t, key, "%v: %s", c, msg) {
 				t.Skip("known")
 			}
